@@ -57,6 +57,12 @@ def expectations() -> list:
         grid.append((['fault', 'refresh-bad-subtype'], s, {NONE_AND_UP}))
         for code in (2, 3, 4, 6):
             grid.append((['teardown', code], s, {(6, code)}))
+    # timers: nothing, or only part of a message, arrives and the timer ends the session (OPEN wait 5/1, hold timer 4/0)
+    grid.append((['wait', 0.0], 'OPENSENT', {(5, 1), (4, 0)}))
+    for n in (1, 10, 19, 30):
+        grid.append((['partial', 'open', n], 'OPENSENT', {(5, 1), (4, 0)}))
+    for kind, n in (('keepalive', 10), ('update', 19), ('update', 30)):
+        grid.append((['partial', kind, n], 'ESTABLISHED', {(4, 0)}))
     # a received NOTIFICATION is never answered
     for s in STATES:
         grid.append((['notif', 6, 2], s, {NONE_AND_CLOSE}))
@@ -91,7 +97,7 @@ def check(case: dict) -> dict:
     async def main(loop):
         routes = [f'route 40.{i // 250}.{i % 250}.0/24 next-hop 1.2.3.4 med {i % 7}' for i in range(400)] if state == 'ESTABLISHED-BATCH' else ['route 40.0.0.0/24 next-hop 1.2.3.4']
         text = sc.config(hold=30, routes=routes)
-        with nh.Harness(loop, config_text=text, env={'bgp.openwait': 20}) as hn:
+        with nh.Harness(loop, config_text=text, env={'bgp.openwait': 12}) as hn:
             if not hn.reload_ok:
                 raise RuntimeError(f'configuration refused: {hn.reactor.configuration.error}')
             runner = sc.Runner(hn)
@@ -119,14 +125,18 @@ def check(case: dict) -> dict:
             n_before = len(r.messages)
             t_inject = loop.time()
             split = case.get('split', 0)
-            if split and case['fault'][0] in ('fault', 'raw'):
+            if case['fault'][0] in ('partial', 'wait') and state == 'ESTABLISHED':
+                # keep our side of the session alive is NOT wanted here: the remote falls silent after the fragment
+                await runner.run([case['fault']])
+            elif split and case['fault'][0] in ('fault', 'raw'):
                 data = sc.fault_bytes(case['fault'][1]) if case['fault'][0] == 'fault' else bytes.fromhex(case['fault'][1])
                 await r.send(data[:split])
                 await hn.sleep(0.02)
                 await r.send(data[split:])
             else:
                 await runner.run([case['fault']])
-            await r.wait_for(lambda: r.closed_at is not None, timeout=6.0)
+            timer_case = case['fault'][0] in ('partial', 'wait')
+            await r.wait_for(lambda: r.closed_at is not None, timeout=45.0 if timer_case else 6.0)
             await hn.sleep(0.2)
             res['after'] = [(t, ty, body) for t, ty, body in r.messages[n_before:]]
             res['closed_at'] = r.closed_at
